@@ -21,6 +21,7 @@ ARGS = [
     (),
     ("i", "w"),              # 'w': an instance of an int subclass
     ("w", ["i"]),
+    ("g", ["f", "g"]),       # 'g': a negative non-integral float (-1.5): encoded as -1.5 * 2^r, not as int(-1.5) * 2^r + ...
 ]
 # result structures: 'L' secret int, 'F' secret fixed-point, 'B' secret boolean, 'k' plain int, 'n' None
 # 'S': the SAME secret object as the previous secret leaf (a wire reported twice gets two outputs, each tied)
@@ -93,6 +94,8 @@ class Snark(Contract):
                 return Word(40 + n[0])
             if kind == "f":
                 return 1.5
+            if kind == "g":
+                return -1.5
             return "text"
         self._args = _build(eval(cfg["args"]), arg_leaf)
         ret_struct = eval(cfg["ret"])
@@ -224,6 +227,7 @@ def _arg(k):
     _n[0] += 1
     if k == "i": return next(ints)
     if k == "w": return Word(40 + _n[0])
+    if k == "g": return -1.5
     return 1.5 if k == "f" else "text"
 args = build(ARGS, _arg)
 state = {}
